@@ -29,6 +29,9 @@ Proof.
   intros y. rewrite H. reflexivity.
 Qed.
 
+Lemma dowhile_tail_cur prev r p c x : dowhile_tail current prev r p c x = dowhile_tail repaired prev r p c x.
+Proof. unfold dowhile_tail, dowhile_test. cbn [fixF current repaired]. reflexivity. Qed.
+
 Theorem an_current_repaired :
   (forall s, nofn s = true -> forall x, an current s x = an repaired s x) /\
   (forall l, nofn_l l = true -> forall x, an_list current l x = an_list repaired l x) /\
@@ -54,12 +57,11 @@ Proof.
       [|discriminate | intros y; rewrite (IHa Ha); reflexivity].
     rewrite (with_child_cur KIf (pos b) (fun y => orb_mark b (an current b y)) (fun y => orb_mark b (an repaired b y)));
       [reflexivity | discriminate | intros y; rewrite (IHb Hb); reflexivity].
-  - intros p c b IHb Hn x. cbn [an nofn] in *. unfold visit_while.
-    rewrite (with_child_cur KLoop (pos b) (fun a => while_post c (pos b) (an current b a)) (fun a => while_post c (pos b) (an repaired b a)));
-      [reflexivity | discriminate | intros y; rewrite (IHb Hn); reflexivity].
+  - intros p c b IHb Hn x. cbn [an nofn] in *. unfold visit_while. cbn [fixF current repaired].
+    apply with_child_cur; [discriminate | intros y; rewrite (IHb Hn); reflexivity].
   - intros p b IHb c Hn x. cbn [an nofn] in *. unfold visit_do_while.
     rewrite (with_child_cur KLoop (pos b) (fun a => dowhile_post current c (pos b) (an current b a)) (fun a => dowhile_post repaired c (pos b) (an repaired b a)));
-      [reflexivity | discriminate | intros y; rewrite (IHb Hn); reflexivity].
+      [apply dowhile_tail_cur | discriminate | intros y; rewrite (IHb Hn); reflexivity].
   - intros p c b IHb Hn x. cbn [an nofn] in *. unfold visit_for.
     apply with_child_cur; [discriminate | intros y; rewrite (IHb Hn); reflexivity].
   - intros p b IHb Hn x. cbn [an nofn] in *. unfold visit_for_in.
